@@ -136,6 +136,7 @@ func init() {
 		cells = append(cells, familyF3(th)...)
 		cells = append(cells, familyF3Pairs()...)
 		cells = append(cells, familyIdents()...)
+		cells = append(cells, familyHiddenTypes()...)
 		e.Rep.Rule("families F1 (complete type matrix x toggles x match), F-name (name alphabet x field/getter x export x local/imported x case x getter) and F3 (struct shapes, member-wise descent); " +
 			"oracle: the reference matcher of DESIGN Appendix A (admissible outcome sets) vs the classified body of the generated function, per destination path; " +
 			"non-trivial = accepted cell in which the reference predicts an assignment or a descent for at least one path (the decision hangs on type x toggles)")
